@@ -582,6 +582,7 @@ type stageExec struct {
 	acked     map[string][][2]int64 // name|md5 -> acknowledged ranges
 	oldLogged map[string]int64      // name|md5|renamed -> time of a record written by `oldlog`
 	prevOf    map[string]string     // name|hashtoken -> predecessor announced last for that version
+	lastCrash, lastRecover, lastSettle int // op numbers of the last cut/crash, recover, settle
 	gaveUp    bool                  // cleanwaiting ran: the order may have been given up for cycles
 	crashes   int                   // crash / cut operations in this case
 	confirmed map[string]bool       // names ever answered passed / waiting
@@ -724,6 +725,14 @@ func (e *stageExec) Do(op []string) string {
 	}
 	e.nOps++
 	e.kinds[op[0]] = true
+	switch op[0] {
+	case "cut", "crash":
+		e.lastCrash = e.nOps
+	case "recover":
+		e.lastRecover = e.nOps
+	case "settle":
+		e.lastSettle = e.nOps
+	}
 	e.key.WriteString(strings.Join(op, " "))
 	e.key.WriteByte(';')
 	r := e.rig
@@ -1455,6 +1464,47 @@ func (e *stageExec) oracleNotLost() {
 		}
 		e.fails = append(e.fails, fmt.Sprintf("validated-lost: %s was reported as passed/waiting but is neither logged nor held as .wait", name))
 	}
+	// A logged version is delivered: the receive-log record is written BEFORE the move into the final directory, and
+	// a restart must finish what the record promises (the sender is told "passed" from the record alone and never
+	// sends the file again). Judged when the receiver is quiescent: no crash in the history, or recover + settle
+	// after the last one. For each target the LAST record counts (later versions overwrite earlier ones).
+	if e.lastCrash != 0 && !(e.lastCrash < e.lastRecover && e.lastRecover < e.lastSettle) {
+		return
+	}
+	type lastRec struct{ name, hash string }
+	lastOf := map[string]lastRec{}
+	var order []string
+	for _, l := range e.readLog() {
+		t := l.renamed
+		if t == "" {
+			t = l.name
+		}
+		if _, ok := lastOf[t]; !ok {
+			order = append(order, t)
+		}
+		lastOf[t] = lastRec{l.name, l.hash}
+	}
+	for _, t := range order {
+		l := lastOf[t]
+		tok := e.tokOfHash(l.hash)
+		if _, old := e.oldLogged[l.name+"|"+l.hash+"|"+map[bool]string{true: "", false: t}[t == l.name]]; old {
+			continue // a record of an earlier run (written by `oldlog`): its file was delivered then
+		}
+		if e.consumed[t] || e.corrupted[l.name] || e.otherVersionSeen(l.name, tok) {
+			continue
+		}
+		if b, err := os.ReadFile(filepath.Join(r.final, t)); err == nil && md5hex(b) == l.hash {
+			continue
+		}
+		if _, err := os.Stat(filepath.Join(r.final, t) + ".lck"); err == nil {
+			continue
+		}
+		if _, err := os.Stat(filepath.Join(r.root, l.name) + ".wait"); err == nil {
+			continue
+		}
+		e.fails = append(e.fails, fmt.Sprintf("validated-lost: %s (%s) has a receive-log record (the sender is told 'passed') but is neither in the final directory nor held in the staging area", l.name, tok))
+	}
+
 }
 
 // oracleClean: C20 — cleaning removes only partials and companions, and a partial whose
